@@ -68,7 +68,8 @@ CHECKS = {
         "the maximum client count), plus all schedules of length <= 3 over a reduced alphabet; every parallel element with every subset of its sub-tasks (and a second parallel "
         "element) excluded through the real task filter; every list of 1..3 (4) hosts over the core "
         "alphabet x 1..17 (40) clients. Reference: rectangular matrix, shared aligned join points, client indices 0..n-1 exactly once per "
-        "task, one progress entry per step, Driver.update_progress_message walks every step; workers: no loss/duplication, contiguous, "
+        "task, one progress entry per step, Driver.update_progress_message walks every step, the real Driver.start_benchmark (stub collaborators) "
+        "plans as many steps as there are schedule elements and starts every client id exactly once; workers: no loss/duplication, contiguous, "
         "<= cores workers, loads differ by <= 1. Exhaustive within the grammar.",
         "Trusted: reference invariants (sched_common.py, 120 lines). Filter-produced schedules are checked with the same invariants in C11.",
     ),
@@ -79,8 +80,9 @@ CHECKS = {
         "DESIGN.md §4 C11",
         "Every schedule of <= 2 (thorough 3) elements over 5 leaf prototypes (sequential or parallel, tags as list and as plain string "
         "with substring traps) in the first or a later challenge x every list of 1..2 of 14 name/type/tag filters, include and exclude: "
-        "kept tasks are the selected ones, same objects, same order, attributes unchanged, every challenge filtered, no empty parallel, "
-        "allocator invariants and progress walk hold; malformed specs raise SystemSetupError.",
+        "kept tasks are the selected ones, same objects, same order, attributes unchanged, every challenge filtered (the second challenge "
+        "holds a task equal to one of the first except for its tags), no empty parallel, allocator invariants and progress walk hold, an "
+        "empty result is still runnable; parallel elements with one sub-task and with explicit clients; malformed specs raise SystemSetupError.",
         "Trusted: the reference (15 lines) and sched_common invariants. Every filtered schedule of <= 2 elements is also raced end to end in the simulation (default schedule).",
     ),
     "C20": (
@@ -193,14 +195,17 @@ CHECKS = {
     "C09": (
         "model_checking",
         "fault injection x stateless deviation-bounded schedule exploration of complete simulated races; environment faults (worker death, "
-        "user cancellation) are transitions available at every scheduling point; race control emulated around the real BenchmarkCoordinator",
+        "user cancellation) are transitions available at every scheduling point; race control = the real BenchmarkCoordinator with emulated "
+        "actor handlers, and in a second set of specs the real BenchmarkActor + MechanicActor(external) with racecontrol.race() as environment",
         "DESIGN.md §4 C09",
         "5 schedule shapes/layouts (incl. a task long enough for the 30 s periodic post-processing) x faults {API error, unsuccessful result (on-error=abort), connection error (continue), parameter source "
         "raises, runner raises: at first/middle/last request; driver metrics store raises on the n-th write; track-preparation task raises; "
         "worker process dies / user cancels at every scheduling point; store failures also while the race lingers in late tear-down} x all "
         "schedules within 1 deviation (thorough: 2 on a subset, capped per subtree). Oracle: race "
         "control's first terminal message is BenchmarkFailure (cancel: cancelled), never completion, within 40 virtual seconds of the fault; "
-        "no results computed, stored in race.json or printed; shutdown terminates every executor thread without deadlock.",
+        "no results computed, stored in race.json or printed; shutdown terminates every executor thread without deadlock. Faults are recorded at "
+        "the moment they fire, so a race that completes although a fault fired is a violation. With the real race control actor the outcome "
+        "is the first answer to racecontrol.race(); its own store failing at the n-th hand-over is a further fault kind.",
         "Trusted: as C01, plus the 40-line emulation of BenchmarkActor's handlers around the real coordinator. A worker that dies after "
         "having finished all its work is not counted as a fault during the race.",
     ),
@@ -209,9 +214,10 @@ CHECKS = {
         "explicit-state search (canonical state hashing, replay from the initial state, no deviation bound) over the real MechanicActor, "
         "Dispatcher, NodeMechanicActor and Mechanic helper on the simulated transport, with recording stub supplier/provisioner/launcher",
         "DESIGN.md §4 C12",
-        "8 target-host lists (local, remote, several nodes per host, mixed, the same host repeated non-adjacently) x {no fault, launcher fails on each host, a daemon departs during "
-        "start-up} x {a non-target daemon, a daemon without ip capability joins} x preserve-install, plus external clusters: ALL reachable "
-        "states under every order of message deliveries (FIFO per pair), daemon joins and (thorough) periodic flush timers. Invariants: "
+        "8 target-host lists (local, remote, several nodes per host, mixed, the same host repeated non-adjacently) x {no fault, launcher fails on each host, provisioning fails for the last node of a multi-node host, a member daemon is shut "
+        "down at any time before its nodes have started (semantics validated against the real Thespian: listeners get the convention "
+        "update, its actors die, parents get ChildActorExited, later creations abort)} x {a non-target daemon, a daemon without ip capability joins} x preserve-install, plus external clusters: ALL reachable "
+        "states under every order of message deliveries (FIFO per pair), daemon joins (before or after the Dispatcher registers) and (thorough) periodic flush timers. Invariants: "
         "EngineStarted only after every node group started, once, with every target node assigned to exactly one host; EngineStopped only after all started groups stopped; per group exactly one "
         "stop -> final flush -> store close -> cleanup(preserve flag); every terminal state after a fault has a BenchmarkFailure at race "
         "control, without fault EngineStarted and EngineStopped (no hang); external clusters never touched.",
@@ -258,7 +264,8 @@ CHECKS = {
         "x data-path modes x preserve: config bases in order without duplicates, variables = config-base < car (list order) < car parameters, "
         "Rally's node variables not overridable in rendered files, every template file rendered to the same relative path (appended across "
         "bases, binary copied verbatim, pre-bundled config removed), cleanup removes the installation and exactly its data paths unless "
-        "preserve (then nothing); compositions without a config base and unknown cars are rejected.",
+        "preserve (then nothing); compositions without a config base and unknown cars are rejected. Every car also goes through the real "
+        "DockerProvisioner (same templates, Rally's container-side variables win).",
         "Trusted: the reference merge (20 lines) and renderer (10 lines). Plugins and bootstrap hooks are not generated.",
     ),
     "C14": (
@@ -271,7 +278,8 @@ CHECKS = {
         "sizes declared/undeclared x offline x base-url x all download words of length <= 2 (3) over 7 outcomes plus the 10-retry boundary; "
         "L2: every I/O step of a first run as a kill point (3 torn offsets per write), second run on the snapshot; L3: offset-table states and "
         "table-build crash points on a 100,001-line file; L4: bundled corpus sets; L5: external decompressor tools with every scripted exit "
-        "status / partial output; second runs after a failed first run. Oracle: if preparation returns, the document has the declared size and the published "
+        "status / partial output; second runs after a failed first run; L6: a whole challenge over three corpora through "
+        "DefaultTrackPreparator (tasks collected first, as the driver does, or run one at a time). Oracle: if preparation returns, the document has the declared size and the published "
         "content and skip_lines agrees with naive skipping at probe lines; otherwise an exception; the download target never holds a partial "
         "file; the loop terminates; healthy states/environments must succeed. 2 recorded findings.",
         "Trusted: the scripted endpoint (50 lines), the file-system step hooks (80 lines). Process-kill crash model.",
